@@ -701,6 +701,12 @@ func (w *World) lightUpdate(n *Node, b *Block, nb *nodeBlk) {
 			nb.rem = append(nb.rem, uint32(i))
 		}
 	}
+	if dr := SubRng(b.Seed^uint64(n.idx+1)*0xd0b1e, "rem-dup"); len(nb.rem) > 0 && dr.Pct(15) {
+		// the same index named twice (ascending order kept): the same request
+		k := dr.Intn(len(nb.rem))
+		nb.rem = append(nb.rem[:k+1], nb.rem[k:]...)
+		w.stats.Reach["light_remember_index_twice"]++
+	}
 	ud := nb.ud
 	chIn := n.ch
 	bt := n.upSlice(b.Proof.Targets, b.Pre.N)
